@@ -97,10 +97,15 @@ def cmp(op, x, t):
     raise ValueError(op)
 
 
-def set_verdict(measure, A, B, threshold, op):
+def set_verdict(measure, A, B, threshold, op, strict=False):
     """Verdict and accepted scores for a pair of present values under a set
-    measure (neither both-empty nor missing: the caller handles those)."""
+    measure (neither both-empty nor missing: the caller handles those).
+    strict: identical sets are not taken to be exactly 1.0 but every formula
+    variant has to agree too (a similarity function applied to the same set in
+    another token order may return 0.9999999999999998)."""
     must_v, may_v = sim_variants(measure, A, B)
+    if strict:
+        must_v = may_v
     if measure in ROUNDED:
         must = all(cmp(op, v, threshold) and cmp(op, round(v, 4), threshold)
                    for v in must_v)
@@ -139,7 +144,7 @@ class PairOracle(object):
 
 
 def join_oracle(lrows, rrows, lkey, rkey, lattr, rattr, tokspec, measure,
-                threshold, op, allow_empty, allow_missing):
+                threshold, op, allow_empty, allow_missing, strict=False):
     """Oracle for the six joins (C01, C02, C03, C08, C09)."""
     po = PairOracle()
     if measure == 'EDIT_DISTANCE':
@@ -177,7 +182,7 @@ def join_oracle(lrows, rrows, lkey, rkey, lattr, rattr, tokspec, measure,
             if not A or not B:
                 po.set(k, NOT, [], 'one_empty')
                 continue
-            v, scores = set_verdict(measure, A, B, threshold, op)
+            v, scores = set_verdict(measure, A, B, threshold, op, strict)
             po.set(k, v, scores, 'normal')
     return po
 
@@ -217,6 +222,11 @@ def filter_pair_verdict(ls, rs, lt, rt, fkind, measure, threshold, op,
         # exact: kept iff both strings non-empty and overlap op size
         if not lt or not rt:
             return NOT, ('empty' if (not lt and not rt) else 'one_empty')
+        if not ls or not rs:
+            # an empty *string* that still has tokens (padded q-grams): C06
+            # ("both strings non-empty") and C04 ("never dropped") pull in
+            # opposite directions here; not judged
+            return MAY, 'normal'
         o = len(set(lt) & set(rt))
         return (MUST if cmp(op, o, threshold) else NOT), 'normal'
     if measure == 'EDIT_DISTANCE':
